@@ -151,6 +151,7 @@ def check(repo, tier="quick"):
     res.rule("C05.a", "an encoding-only generator (and the helpers it calls) stores into no content-determining bitstream field, except sanctioned stores whose value is demonstrably the configured one")
     res.rule("C05.b", "provenance of sanctioned content stores: replacement sequence headers come from iter_sequence_headers(codec_features); explicit wavelet_index_ho / dwt_depth_ho are codec_features' own values and the flags are literally True")
     res.rule("C05.c", "encoding-only generators build their source sequence with make_sequence from the configured codec features and a picture generator's output (no pixel values of their own)")
+    res.rule("C05.e", "slice-level arithmetic of the generators: no call passes same-named coordinates/sizes to the wrong parameters (sx/sy, width/height), and no size guard is followed by a further decrement of the guarded quantity")
     res.rule("C05.d", "names: generator functions are distinct (file names derive from them); literal sub-case names within one generator are distinct; every listed generator exists")
 
     eff = Effects(repo)
@@ -180,6 +181,10 @@ def check(repo, tier="quick"):
         rule_c(repo, res, g, m, f)
     rule_b(repo, res, gens, eff)
     rule_d(repo, res, gens)
+    from .. import lints
+
+    lints.rule(repo, res, "C05.e", [n.split("vc2_conformance.", 1)[-1] for n in sorted(repo.modules) if n.startswith("vc2_conformance.test_cases")])
+    res.floor("C05.e", 15)
     res.floor("C05.a", 9)
     res.floor("C05.b", 3)
     res.floor("C05.c", 9)
